@@ -192,7 +192,12 @@ func genConcOp(r *Rng, w *world, mine *[][]byte, uid *uint64, cfg ConcCfg) *Op {
 	}
 	if cfg.HalfFreed && r.Intn(2) == 0 {
 		// many creations of few names: they are handed the half-freed inode
-		return &Op{K: []OpKind{OpCreate, OpCreate, OpMkdir, OpSymlink}[r.Intn(4)], H: w.dirs[r.Intn(len(w.dirs))], Name: w.names[r.Intn(2)], Target: "t"}
+		k := []OpKind{OpCreate, OpCreate, OpMkdir, OpSymlink}[r.Intn(4)]
+		n := w.names[r.Intn(2)]
+		if k == OpMkdir {
+			n = w.mnames[r.Intn(len(w.mnames))] // directories keep to their own names (open known finding)
+		}
+		return &Op{K: k, H: w.dirs[r.Intn(len(w.dirs))], Name: n, Target: "t"}
 	}
 	if cfg.Focus {
 		d := w.dirs[len(w.dirs)-1]
@@ -463,22 +468,27 @@ func runOneHistory(cfg ConcCfg, seed uint64, cas, h int, res *ConcRes) {
 		}(c, crng)
 	}
 	statsStop := make(chan struct{})
+	statsDone := make(chan struct{})
 	if cfg.NoCheck {
 		// C14: statistics are read (and reset) while requests are served
+		nsrv := srv.N
 		go func() {
+			defer close(statsDone)
 			for k := 0; ; k++ {
 				select {
 				case <-statsStop:
 					return
 				default:
 				}
-				srv.N.WriteOpStats(io.Discard)
+				nsrv.WriteOpStats(io.Discard)
 				if k%4 == 3 {
-					srv.N.ResetOpStats()
+					nsrv.ResetOpStats()
 				}
 				runtime.Gosched()
 			}
 		}()
+	} else {
+		close(statsDone)
 	}
 	go func() { wg.Wait(); close(done) }()
 	select {
@@ -505,6 +515,7 @@ func runOneHistory(cfg ConcCfg, seed uint64, cas, h int, res *ConcRes) {
 		}
 	}
 	close(statsStop)
+	<-statsDone
 	ls := mon.Stats()
 	if cfg.NoCheck && h%2 == 1 {
 		// C14: shut down and restart while the shrinker may still be running
